@@ -7,8 +7,9 @@ RULE = ("valid streams of every method (sequential / Edgebreaker standard+valenc
         "DecodeBufferToGeometry / GetEncodedGeometryType / skip-transform, then truncations, byte / bit / 32-bit / varint patterns, multi-site, "
         "version and type rewrites, splices, insertions/deletions; each decode in a forked worker under ASan+UBSan with a watchdog; input "
         "buffer compared before/after; distinct = distinct (bytes, entry point)")
-# the Edgebreaker connectivity decoder state machine is modelled (Model/Edgebreaker.v): its theorems and its tie are part of this check
-SUBCHECKS = ["EB"]
+# the Edgebreaker connectivity decoder state machine is modelled (Model/Edgebreaker.v): its theorems and its tie are part of this check;
+# HOSTILE = semantic mutations (symbols, start/seam bits, split events, declared counts) of Edgebreaker streams through the public decoder
+SUBCHECKS = ["EB", "HOSTILE"]
 def run(ctx):
     decsearch.standard(ctx, __import__(__name__), ["C03"], RULE)
 def replay(ctx, path):
